@@ -52,6 +52,10 @@ def tasks(tier, seed, deepest=True):
         T.append((3, 1, 2, None, True, False, 1, {'short': True}))
         T.append((3, 2, 2, 'pfasst_burnin', True, True, 1, {'short': True}))
         T.append((2, 2, 2, 'fine_only', False, False, 1, {'short': True}))
+        # steps that cannot be copied (the problem holds a handle that cannot be pickled): the controller builds them one by one
+        T.append((3, 1, 2, None, True, False, 1, {'unpicklable': True}))
+        T.append((3, 1, 2, None, False, False, 1, {'unpicklable': True}))
+        T.append((3, 2, 2, 'fine_only', True, False, 1, {'unpicklable': True}))
         T.append((2, 2, 2, 'pfasst_burnin', True, False, 2, None))
         T.append((2, 3, 2, None, True, False, 2, None))  # two sweeps on the middle level on the way down
         T.append((2, 1, 2, None, True, False, 1, {'force_done': True, 'force_continue': False}))
